@@ -202,8 +202,20 @@ def main(argv):
     else:
       infra.append('%s: replay crashed: %s' % (hname, r.get('error')))
 
+  def is_known(hname, kw):
+    for e in known:
+      if e.get('harness') == hname and e.get('status') == 'finding':
+        try:
+          if eval(e['match'], {}, dict(kw)):
+            return True
+        except Exception:
+          pass
+    return False
+
   for j in jobs:
     _, hname, kw, r = j
+    if is_known(hname, kw):
+      continue          # a smoke input that is exactly a listed finding (reported above)
     handle_cex(hname, mod.HARNESSES[hname]['fn'], kw, 'smoke input')
 
   for ph in per_harness:
